@@ -1,6 +1,7 @@
 import BSModel.Proofs.EncodingIn
 import BSModel.Proofs.EncodingDecl
 import BSModel.Proofs.EncodingRx
+import BSModel.Proofs.Detwingle
 import BSModel.Gen.EncodingIn
 /-! # C07 — encoding detection follows the documented precedence and decodes exactly
 
@@ -830,6 +831,41 @@ theorem utf8_when_every_indication_is_utf8 (C : Codecs) (L : Lawful C) (a : Args
 example : True := by
   have := utf8_when_every_indication_is_utf8 toyLawful toyLawful_is_lawful { known := [ofS "UTF-8"], isHtml := true }
     ([0xef, 0xbb, 0xbf] ++ ofS "<meta charset=utf-8>") (ofS "<meta charset=utf-8>") (by decide) (by decide +kernel) (by decide) (by decide +kernel)
+  trivial
+
+/-- "VALID UTF-8" MADE CONCRETE. `BS.Detwingle.decodeUtf8` is the strict UTF-8 decoder of Unicode Table 3-7
+    (model of property C19, proved there to accept exactly the encodings of lists of scalar values, and
+    compared there with CPython's). If the codec oracle's strict utf-8 decoding is that decoder, then for
+    EVERY text `s` of Unicode scalar values: when what remains after BOM stripping is the UTF-8 encoding
+    of `s` and every present indication says UTF-8, UnicodeDammit returns `s` itself, as utf-8, unflagged. -/
+theorem valid_utf8_text_is_recovered (C : Codecs) (L : Lawful C) (a : Args) (b : Bytes) (s : PStr) (hb : b ≠ [])
+    (hdecoder : ∀ d, C.decodeStrict utf8 d = Detwingle.decodeUtf8 d)
+    (hs : ∀ c ∈ s, Detwingle.IsScalar c) (henc : (stripBom b).1 = Detwingle.utf8 s)
+    (hall : ∀ x ∈ (a.known ++ a.override) ++ (stripBom b).2.toList ++ a.user ++
+        (findDeclared (stripBom b).1 a.isHtml).toList ++ (C.chardet (stripBom b).1).toList, lower x = utf8)
+    (hx : (exclSet a).contains utf8 = false) :
+    (dammit C a (.bytes b)).text = some s ∧ (dammit C a (.bytes b)).originalEncoding = some utf8 ∧
+    (dammit C a (.bytes b)).containsReplacement = false :=
+  utf8_when_every_indication_is_utf8 C L a b s hb hall hx (by rw [hdecoder, henc]; exact Detwingle.decodeUtf8_utf8 s hs)
+
+/-- a lawful oracle whose strict utf-8 decoding is the Table 3-7 decoder -/
+def toyUtf8 : Codecs where
+  codecExists n := lower n == utf8 || lower n == windows1252
+  decodeStrict n b := if n == utf8 then Detwingle.decodeUtf8 b else none
+  decodeReplace n b := if n == utf8 || n == windows1252 then some (b.map fun c => if c < 128 then c else 0xFFFD) else none
+
+theorem toyUtf8_is_lawful : Lawful toyUtf8 where
+  lookup_ignores_case n := by simp [toyUtf8, lower_idem]
+  utf8_exists := by decide
+  cp1252_exists := by decide
+  utf8_replace_total d := by simp [toyUtf8]
+  cp1252_replace_total d := by simp [toyUtf8, windows1252, utf8]
+
+-- "é€😀" behind a UTF-8 BOM, known_definite_encodings=["UTF-8"]
+example : True := by
+  have := valid_utf8_text_is_recovered toyUtf8 toyUtf8_is_lawful { known := [ofS "UTF-8"] }
+    ([0xef, 0xbb, 0xbf] ++ Detwingle.utf8 [0xE9, 0x20AC, 0x1F600]) [0xE9, 0x20AC, 0x1F600] (by decide +kernel) (fun _ => rfl)
+    (by decide) (by decide +kernel) (by decide +kernel) (by decide)
   trivial
 
 /-- WHICH ENCODING WINS in the replace pass: when no candidate decodes cleanly, the first candidate other
